@@ -41,6 +41,25 @@ class PyTuple(tuple):
     """a Python tuple / list literal (as opposed to a plain tuple, which nothing here produces any more)"""
 
 
+class Closure(Unknown):
+    """a lambda expression as a value: it can be applied (V.call) - used in any other way it is an unknown value"""
+
+    def __init__(self, fd, env):
+        Unknown.__init__(self, "a lambda used as a value")
+        self.fd, self.env = fd, env
+
+
+class NamedTuple(PyTuple):
+    """an instance of a collections.namedtuple class defined at module level: a tuple whose members also have names"""
+    fields = ()
+
+    @classmethod
+    def make(cls, fields, vals):
+        t = cls(vals)
+        t.fields = tuple(fields)
+        return t
+
+
 def israt(v):
     return isinstance(v, F.Rat)
 
@@ -409,9 +428,11 @@ SIGS = {
 CANON = {"kaiser": "signal.windows.kaiser", "lfilter": "signal.lfilter", "upfirdn": "signal.upfirdn", "interp1d": "interp1d", "gcd": "math.gcd"}
 KEEP_POS = 1          # how many leading parameters of a SIGS function stay positional in the value
 NP_METHODS = {"sum", "mean", "cumsum", "all", "any", "max", "min", "nonzero", "swapaxes", "transpose", "ravel", "reshape", "std", "var", "prod",
-              "argmax", "argmin", "flatten", "squeeze", "conj", "round", "clip", "dot", "argsort", "repeat", "take", "tolist", "item", "cumprod"}
+              "argmax", "argmin", "flatten", "squeeze", "conj", "round", "clip", "dot", "argsort", "repeat", "take", "tolist", "item", "cumprod", "searchsorted"}
 IDENT_CALLS = {"float", "np.asarray", "np.array", "np.atleast_1d", "np.asanyarray", "np.real", "complex", "list", "tuple", "np.ascontiguousarray"}
 IDENT_METHODS = {"astype", "copy", "view"}
+PURE_METHODS = {"index", "count", "get", "keys", "values", "items", "format", "join", "split", "strip", "startswith", "endswith", "lower", "upper", "nonzero", "searchsorted", "tobytes", "diagonal",
+                "trace", "is_integer", "bit_length", "isoformat", "total_seconds", "ptp", "argpartition", "compress", "choose", "cumprod", "imag", "real", "conjugate", "byteswap", "newbyteorder"}
 
 
 class Shared:
@@ -440,11 +461,13 @@ class Shared:
         self.on_unknown = None          # (call node, evaluator) -> value | NotImplemented : consulted when a followed helper returns something not understood
         self.inline_policy = None       # (function def, positional values, keyword values, evaluator) -> bool : follow this call (default: always)
         self.concrete = False           # finite-world evaluation: constant ranges are unrolled (break / for-else executed), zeros(n) is a list of n zeros
+        self.namedtuples = {}           # class name -> field names (module-level namedtuple classes)
 
     def scratch(self):
         s = Shared(self.src, self.facts, None, self.call, None, self.inline, self.consts, self.modnames, self.binop, self.ranks)
         s.index_syms = self.index_syms
         s.concrete = self.concrete
+        s.namedtuples = self.namedtuples
         s.rank_of, s.scalar_uses = self.rank_of, self.scalar_uses
         return s
 
@@ -482,6 +505,26 @@ def _module_consts(m):
         if isinstance(st, (ast.Assign, ast.AnnAssign)) and len(tg) == 1 and isinstance(tg[0], ast.Name) and st.value is not None and literal(st.value):
             val[tg[0].id] = st.value
     return {k: v for k, v in val.items() if count.get(k) == 1}
+
+
+def module_namedtuples(ctx, rel):
+    """{class name: field names} of the namedtuple classes defined at module level: X = namedtuple("X", "a b") / namedtuple("X", ["a", "b"])"""
+    m = ctx.src.mod(rel)
+    if getattr(m, "_c19_nt", None) is not None:
+        return m._c19_nt
+    out = m._c19_nt = {}
+    for st in m.tree.body:
+        if isinstance(st, ast.Assign) and len(st.targets) == 1 and isinstance(st.targets[0], ast.Name) and isinstance(st.value, ast.Call) \
+                and (dotted(st.value.func) or "").rsplit(".", 1)[-1] == "namedtuple" and len(st.value.args) == 2 and not st.value.keywords:
+            f = st.value.args[1]
+            names = None
+            if isinstance(f, ast.Constant) and isinstance(f.value, str):
+                names = f.value.replace(",", " ").split()
+            elif isinstance(f, (ast.Tuple, ast.List)) and all(isinstance(e, ast.Constant) and isinstance(e.value, str) for e in f.elts):
+                names = [e.value for e in f.elts]
+            if names:
+                out[st.targets[0].id] = names
+    return out
 
 
 def module_names(ctx, rel):
@@ -638,6 +681,10 @@ class V:
         """X.shape[k] for a constant k, where the value X shows it (None: not shown - the load stays symbolic)"""
         if not israt(v):
             return None
+        if k == -1:
+            r = self._last_extent(v)
+            if r is not None:
+                return r
         for nm in ("zeros", "ones", "empty"):
             z = un(v, nm)
             if z is not None:
@@ -673,6 +720,56 @@ class V:
                 d = self.shape_dim(x, k)
                 if d is not None:
                     return d
+        return None
+
+    def _last_extent(self, v, depth=0):
+        """extent of an array value along its last axis, where the value shows it: a zero buffer whose shape was edited, a concatenation along the last axis,
+        the output of a filter (as long as its input), a tail slice of one of these"""
+        if not israt(v) or depth > 6:
+            return None
+        for nm in ("zeros", "ones", "empty"):
+            z = un(v, nm)
+            if z is not None:
+                shp = z[0]
+                st = un(shp, "store")
+                if st is not None and int_of(st[1]) == -1:
+                    return st[2]
+                t = un(shp, "tuple")
+                if t is not None:
+                    return t[-1]
+                sc = un(shp, "seqcat")
+                if sc is not None and un(sc[1], "tuple") is not None and len(un(sc[1], "tuple")) >= 1:
+                    return un(sc[1], "tuple")[-1]
+                return None
+        a = un(v, "store") or un(v, "carried")
+        if a is not None:
+            return self._last_extent(a[0], depth + 1)
+        a = un(v, "cat")
+        if a is not None and int_of(a[0]) == -1:
+            ds = [self._last_extent(x, depth + 1) for x in a[1:]]
+            if all(d is not None for d in ds):
+                tot = F.const(0)
+                for d in ds:
+                    tot = tot + d
+                return tot
+            return None
+        u = unfn(v)
+        if u is not None and u[0] == "call:signal.lfilter":
+            x = placed("signal.lfilter", u[1]).get("x")
+            ax = placed("signal.lfilter", u[1]).get("axis")
+            return self._last_extent(x, depth + 1) if x is not None and (ax is None or int_of(ax) == -1) else None
+        a = un(v, "idx")
+        if a is not None:
+            parts = ix_parts(a[1])
+            if len(parts) == 2 and is_sym(parts[0], "Ellipsis"):
+                sl = unslice(parts[1])
+                if sl is not None and sl[1] is None and sl[2] is None:
+                    n = self._last_extent(a[0], depth + 1)
+                    if n is not None:
+                        lo = sl[0] if sl[0] is not None else F.const(0)
+                        c = const_of(lo)
+                        if (c is not None and c >= 0) or (c is None and V(self.sh.scratch()).truth(le0(-lo)) is True):
+                            return n - lo
         return None
 
     def cat(self, name, parts, axis):
@@ -1034,6 +1131,8 @@ class V:
             base = self._ev(node.value)
             if is_unknown(base):
                 return base
+            if isinstance(base, NamedTuple):
+                return base[base.fields.index(node.attr)] if node.attr in base.fields else Unknown(f"attribute {node.attr} of a named tuple")
             if isinstance(base, PyTuple) and self.sh.concrete and node.attr in ("size", "shape", "ndim", "T"):
                 # finite-world evaluation: a 1-D array of known length
                 return {"size": F.const(len(base)), "shape": PyTuple((F.const(len(base)),)), "ndim": F.const(1), "T": base}[node.attr]
@@ -1100,6 +1199,12 @@ class V:
                 if isinstance(node.slice, ast.Constant) and node.slice.value in base.d:
                     return base.d[node.slice.value]
                 return Unknown("key not in the literal table")
+            if is_sym(base, "np.r_") or is_sym(base, "numpy.r_"):
+                # np.r_[a, B, ...] of scalars and 1-D arrays: their concatenation (no slice / string directives)
+                elts = node.slice.elts if isinstance(node.slice, ast.Tuple) else [node.slice]
+                if any(isinstance(e, (ast.Slice, ast.Starred)) or (isinstance(e, ast.Constant) and isinstance(e.value, str)) for e in elts):
+                    return Unknown("np.r_ with a slice or a directive")
+                return self.np_call("np.hstack", [PyTuple(self.ev(e) for e in elts)], {}, node)
             ix = self.index_value(node.slice)
             return self.mk_idx(base, ix)
         if isinstance(node, ast.Call):
@@ -1123,6 +1228,30 @@ class V:
                         return Unknown("starred element of unknown length")
                 else:
                     out.append(self.ev(e))
+            return PyTuple(out)
+        if isinstance(node, (ast.GeneratorExp, ast.ListComp)) and len(node.generators) == 1 and node.generators[0].ifs:
+            # [e for x in literal sequence if cond]: element by element, every condition decided
+            g = node.generators[0]
+            seq = self._ev(g.iter)
+            if not (isinstance(seq, tuple) and len(seq) <= 16):
+                return Unknown("comprehension with a condition over a computed sequence")
+            out = []
+            saved = dict(self.env)
+            try:
+                for x in seq:
+                    self.assign(g.target, x, node)
+                    keep = True
+                    for c_ in g.ifs:
+                        t_ = self.truth(self.ev(c_))
+                        if t_ is None:
+                            return Unknown(f"comprehension condition {ast.unparse(c_)} is not decided")
+                        if not t_:
+                            keep = False
+                            break
+                    if keep:
+                        out.append(self.ev(node.elt))
+            finally:
+                self.env = saved
             return PyTuple(out)
         if isinstance(node, (ast.GeneratorExp, ast.ListComp)) and len(node.generators) == 1 and not node.generators[0].ifs:
             g = node.generators[0]
@@ -1168,6 +1297,8 @@ class V:
             return F.sym("<fstring>")
         if isinstance(node, ast.Starred):
             return self._ev(node.value)
+        if isinstance(node, ast.Lambda):
+            return Closure(self._lambda_def(node, "<lambda>"), self.env)
         return Unknown(f"node {type(node).__name__}")
 
     def ite(self, c, a, b):
@@ -1191,6 +1322,16 @@ class V:
             return PyTuple(tuple(a) + tuple(b))
         if isinstance(a, tuple) and isinstance(op, ast.Mult) and int_of(b) is not None:
             return PyTuple(tuple(a) * int_of(b))
+        if isinstance(a, PyTuple) and isinstance(op, ast.Mult) and israt(b):
+            try:
+                return F.fn("seqrep", as_rat(a), b)          # [x] * n for a computed n
+            except Unsupported as ex:
+                return Unknown(str(ex))
+        if isinstance(op, ast.Add) and israt(a) and un(a, "seqrep") is not None and isinstance(b, PyTuple):
+            try:
+                return F.fn("seqcat", a, as_rat(b))          # [x] * n + [y]
+            except Unsupported as ex:
+                return Unknown(str(ex))
         if isinstance(op, ast.Add) and ((isinstance(a, PyTuple) and self._shape_seq(b)) or (isinstance(b, PyTuple) and self._shape_seq(a))):
             return F.fn("seqcat", as_rat(a), as_rat(b))          # list(shape)[:-1] + [n]
         if isinstance(a, (tuple, DictValue)) or isinstance(b, (tuple, DictValue)):
@@ -1418,6 +1559,14 @@ class V:
             else:
                 self.env[f.value.id] = PyTuple(tuple(self.env[f.value.id]) + (tuple(v) if f.attr == "extend" else (v,)))
             return NONE
+        if name is not None and name in self.sh.namedtuples and self.lookup(name) is None:
+            pos, kw, err = self._args(node)
+            if err is not None:
+                return err
+            fields = self.sh.namedtuples[name]
+            if len(pos) > len(fields) or set(kw) - set(fields[len(pos):]) or len(pos) + len(kw) != len(fields):
+                return Unknown(f"arguments of the namedtuple {name}")
+            return NamedTuple.make(fields, list(pos) + [kw[f_] for f_ in fields[len(pos):]])
         if name is not None:
             root = name.split(".")[0]
             bound = self.lookup(root)
@@ -1440,6 +1589,14 @@ class V:
                 if isinstance(pn, ast.Call) and dotted(pn.func) in ("partial", "functools.partial") and self.lookup(dotted(pn.args[0]).split(".")[0]) is None:
                     # NAME = partial(f, a..., k=v...) at module level:  NAME(x..., j=w...) = f(a..., x..., k=v..., j=w...)
                     return self.call(ast.copy_location(ast.Call(func=pn.args[0], args=list(pn.args[1:]) + list(node.args), keywords=list(pn.keywords) + list(node.keywords)), node))
+                if isinstance(bound, Closure):
+                    r = self.inline_call(node, bound.fd, bound.env)
+                    return r if r is not NotImplemented else Unknown("lambda applied with arguments that cannot be placed")
+                if bound is not None and not is_unknown(bound) and israt(bound):
+                    nm_ = _strsym(bound)
+                    if nm_ and "." in nm_ and nm_.split(".")[0] in self.sh.modnames and self.lookup(nm_.split(".")[0]) is None:
+                        pos, kw, err = self._args(node)          # a local that holds a library routine: scale = np.log ; scale(x)
+                        return err if err is not None else self.np_call(nm_, pos, kw, node)
                 if bound is not None:
                     pa = un(bound, "call:partial") or un(bound, "call:functools.partial")
                     f0 = _strsym(pa[0]) if pa else None
@@ -1466,8 +1623,21 @@ class V:
         if err is not None:
             return err
         if callee is not None:
+            if isinstance(callee, Closure):
+                r = self.inline_call(node, callee.fd, callee.env)
+                return r if r is not NotImplemented else Unknown("lambda applied with arguments that cannot be placed")
             if is_unknown(callee):
                 return callee
+            nm_ = _strsym(callee)
+            if nm_ and nm_[:1] not in "'\"@" and self.lookup(nm_.split(".")[0]) is None:
+                # the callee is a value that names a function: a function of the module (followed), or a library routine (np.log held in a local)
+                if "." not in nm_ and (nm_ in self.local_funcs or nm_ in self.sh.inline):
+                    fn_, outer = self.local_funcs.get(nm_, (self.sh.inline.get(nm_), None))
+                    r = self.inline_call(node, fn_, outer)
+                    if r is not NotImplemented:
+                        return r
+                elif nm_.split(".")[0] in self.sh.modnames:
+                    return self.np_call(nm_, pos, kw, node)
             return self.record("<apply>", pos, kw, node, callee)
         outk = next((k for k in node.keywords if k.arg == "out"), None)
         if outk is None and name is not None and name.split(".")[0] in ("np", "numpy") and "where" in kw and not is_sym(kw["where"], "True") and name.rsplit(".", 1)[-1] != "where":
@@ -1509,13 +1679,29 @@ class V:
         pos, kw, err = self._args(node)
         if err is not None:
             return err
+        if isinstance(recv, DictValue) and attr in ("values", "keys", "items") and not pos and not kw:
+            if attr == "values":
+                return PyTuple(recv.d.values())
+            if attr == "keys":
+                return PyTuple(F.sym(repr(k_)) if isinstance(k_, str) else F.const(k_) for k_ in recv.d)
+            return PyTuple(PyTuple((F.sym(repr(k_)) if isinstance(k_, str) else F.const(k_), v_)) for k_, v_ in recv.d.items())
         if isinstance(recv, (tuple, DictValue)):
             return Unknown(f"method {attr} of a tuple")
         if attr in IDENT_METHODS:
             return recv
         if attr in NP_METHODS:
             return self.np_call("np." + attr, [recv] + pos, kw, node)
-        return self.record("." + attr, [recv] + pos, kw, node, None)
+        val = self.record("." + attr, [recv] + pos, kw, node, None)
+        f_ = node.func
+        if isinstance(f_, ast.Attribute) and isinstance(f_.value, ast.Name) and f_.value.id in self.env and attr not in PURE_METHODS:
+            # a method the engine does not know may change its object in place (fill, sort, put, resize ...): nothing that may write is skipped
+            z = next((un(recv, k0) for k0 in ("zeros", "empty", "ones") if un(recv, k0) is not None), None)
+            if attr == "fill" and len(pos) == 1 and not kw and z is not None and israt(pos[0]) and const_of(pos[0]) in (0, 1):
+                self.env[f_.value.id] = F.fn("zeros" if const_of(pos[0]) == 0 else "ones", z[0])          # buffer.fill(0) on a fresh buffer
+            else:
+                self.env[f_.value.id] = Unknown(f"possibly changed in place by .{attr}()")
+            self.mutated.add(f_.value.id)
+        return val
 
     def np_call(self, name, pos, kw, node):
         """numpy / builtin spellings with one meaning get one value"""
@@ -1551,6 +1737,11 @@ class V:
         if name == "len" and n == 1:
             if isinstance(pos[0], tuple):
                 return F.const(len(pos[0]))
+            if isinstance(pos[0], DictValue):
+                return F.const(len(pos[0].d))
+            tr_ = un(pos[0], "call:np.transpose") if israt(pos[0]) else None
+            if tr_ is not None and len(tr_) == 1 and self.rank(tr_[0]) == 2:
+                return self.mk_idx(F.fn("attr:shape", tr_[0]), F.const(1))          # len(X.T) = X.shape[1] for a matrix
             inner = un(pos[0], "idx")
             if inner is not None and len(ix_parts(inner[1])) == 1 and self.intlike(inner[1]):
                 return self.mk_idx(F.fn("attr:shape", inner[0]), F.const(1))      # the length of a row of a 2-D array
@@ -1614,8 +1805,39 @@ class V:
             if self.integral(pos[0]):
                 return pos[0]
             return F.fn("floor", pos[0]) if name.endswith("floor") else -F.fn("floor", -pos[0])
+        if name == "np.arange" and "dtype" in kw and (is_sym(kw["dtype"], "float") or is_sym(kw["dtype"], "np.float64") or is_sym(kw["dtype"], "'float64'") or is_sym(kw["dtype"], "'float'")):
+            kw = {k: v for k, v in kw.items() if k != "dtype"}          # (the counts as floats: the same numbers)
+        if name == "np.arange" and n == 3 and not kw and israt(pos[2]) and eq(pos[2], F.const(1)):
+            return self.np_call(name, pos[:2], kw, node)
         if name == "np.arange" and n == 2 and not kw and israt(pos[0]) and pos[0].is_zero():
             return self.np_call(name, pos[1:], kw, node)
+        if name in ("np.add.reduce", "np.add.accumulate") and n >= 1 and ("axis" in kw or n >= 2) and set(kw) <= {"axis"}:
+            return self.np_call("np.sum" if name.endswith("reduce") else "np.cumsum", pos, kw, node)          # (the ufunc methods np.sum / np.cumsum call; the default axis differs)
+        if name in ("np.logical_and.reduce", "np.logical_or.reduce") and n == 1 and not kw and isinstance(pos[0], tuple) and all(israt(x) for x in pos[0]):
+            return b_and(list(pos[0])) if "and" in name else b_or(list(pos[0]))
+        if name == "np.pad" and n == 2 and israt(pos[0]) and (not kw or (set(kw) <= {"mode", "constant_values"} and is_sym(kw.get("mode", F.sym("'constant'")), "'constant'")
+                                                                 and const_of(kw.get("constant_values", F.const(0))) == 0)):
+            # np.pad(x, pad_width): zeros before / after along the LAST axis only ((0, 0) for every other axis), as the concatenation it equals
+            pw, last = pos[1], None
+            zero_pair = lambda t_: isinstance(t_, tuple) and len(t_) == 2 and all(israt(y) and const_of(y) == 0 for y in t_)      # noqa
+            if isinstance(pw, PyTuple) and pw and all(isinstance(t_, tuple) and len(t_) == 2 for t_ in pw) and all(zero_pair(t_) for t_ in pw[:-1]):
+                last = pw[-1]
+            elif israt(pw):
+                sc = un(pw, "seqcat")
+                rep = un(sc[0], "seqrep") if sc is not None else None
+                it_, tl_ = (un(rep[0], "tuple") if rep is not None else None), (un(sc[1], "tuple") if sc is not None else None)
+                if it_ is not None and tl_ is not None and len(it_) == 1 and len(tl_) == 1:
+                    z_, l_ = un(it_[0], "tuple"), un(tl_[0], "tuple")
+                    if z_ is not None and l_ is not None and len(z_) == 2 and len(l_) == 2 and all(const_of(y) == 0 for y in z_):
+                        last = PyTuple(l_)
+            if last is not None and all(israt(y) for y in last):
+                blk = lambda n_: F.fn("zeros", F.fn("tuple", ELL, n_))      # noqa  (a block of zeros with n_ samples along the last axis)
+                val = F.fn("cat", F.const(-1), blk(last[0]), pos[0], blk(last[1]))
+                self._rec("np.concatenate", [PyTuple((blk(last[0]), pos[0], blk(last[1])))], {"axis": F.const(-1)}, node, val, None)
+                return val
+            return Unknown("np.pad with a pad width that is not understood")
+        if name == "np.append" and n == 2 and set(kw) == {"axis"} and all(israt(x) for x in pos):
+            return self.np_call("np.concatenate", [PyTuple(pos)], kw, node)          # np.append(a, b, axis=k) with an axis is the concatenation
         if self.sh.concrete and name in ("np.zeros", "np.ones", "np.empty") and n >= 1 and int_of(pos[0]) is not None and 0 <= int_of(pos[0]) <= 64:
             return PyTuple([F.const(1 if name == "np.ones" else 0)] * int_of(pos[0]))          # a 1-D array of known length, element by element
         if self.sh.concrete and name in ("np.zeros_like", "np.ones_like", "np.empty_like", "np.full_like") and n >= 1 and isinstance(pos[0], PyTuple):
@@ -1626,6 +1848,8 @@ class V:
         if self.sh.concrete and name in ("np.zeros", "np.ones", "np.empty") and n >= 1 and isinstance(pos[0], PyTuple) and len(pos[0]) == 1 and int_of(pos[0][0]) is not None \
                 and 0 <= int_of(pos[0][0]) <= 64:
             return PyTuple([F.const(1 if name == "np.ones" else 0)] * int_of(pos[0][0]))          # np.zeros((n,)) / np.zeros(x.shape)
+        if name == "np.full" and n == 2 and set(kw) <= {"dtype"} and israt(pos[1]) and const_of(pos[1]) in (0, 1):
+            return self.np_call("np.zeros" if const_of(pos[1]) == 0 else "np.ones", [pos[0]], {}, node)
         if name in ("np.zeros", "np.ones", "np.empty") and (n >= 1 or "shape" in kw):
             return F.fn(name[3:], as_rat(pos[0] if n else kw["shape"]))
         if name in ("np.zeros_like", "np.ones_like", "np.empty_like") and n >= 1 and israt(pos[0]):
@@ -1806,6 +2030,15 @@ class V:
                     self.assign(t, v if is_unknown(v) else Unknown("unpacking"), st)
         elif isinstance(target, ast.Subscript):
             b = target.value
+            if isinstance(b, ast.Name) and isinstance(self.env.get(b.id), DictValue):
+                # d["key"] = v on a literal dict local
+                if isinstance(target.slice, ast.Constant) and isinstance(target.slice.value, (str, int)):
+                    d_ = dict(self.env[b.id].d)
+                    d_[target.slice.value] = v
+                    self.env[b.id] = DictValue(d_)
+                else:
+                    self.env[b.id] = Unknown("a dict local stored under a computed key")
+                return
             if isinstance(b, ast.Name):
                 old = self._name(b.id)
                 ix = self.index_value(target.slice)
@@ -1844,6 +2077,17 @@ class V:
                         if k_ != b.id and israt(x_) and (eq(x_, root) or find_atoms(x_, lambda n_, a2, r_=fkey(root): n_ == "idx" and fkey(a2[0]) == r_)):
                             self.env[k_] = Unknown(f"written through the view {b.id}")
                 new = self.mk_store(old, ix, v)
+                if root is None and israt(old):
+                    # the local may be another NAME of an array (dest = cal ; dest[...] = v): the store changes that array too.  Values do not carry identity:
+                    # one candidate with this value is updated, several candidates (equal content) all become unknown
+                    cands = [m_ for m_ in self.view_of.get(b.id, ()) if m_ != b.id and israt(self.env.get(m_)) and eq(self.env[m_], old)]
+                    if len(cands) == 1:
+                        self.env[cands[0]] = new
+                        self.mutated.add(cands[0])
+                    elif cands:
+                        for m_ in cands:
+                            self.env[m_] = Unknown(f"possibly written through its other name {b.id}")
+                        new = Unknown(f"{b.id} is another name of one of {sorted(cands)}")
                 self.env[b.id] = new
                 self.mutated.add(b.id)
                 self.sh.cells.append(CellRec(old, ix, v, new, st, tuple(self.sh.loop_stack)))
@@ -1936,7 +2180,11 @@ class V:
                 for t_ in n.targets:
                     bind(t_, n.value)
             elif isinstance(n, ast.For):
-                bind(n.target, n.iter)
+                if isinstance(n.iter, (ast.Tuple, ast.List)):
+                    for e_ in n.iter.elts:          # the target is bound to every element in turn
+                        bind(n.target, e_)
+                else:
+                    bind(n.target, n.iter)
             elif isinstance(n, ast.NamedExpr):
                 bind(n.target, n.value)
         return out
@@ -2047,6 +2295,17 @@ class V:
                         return PyTuple(PyTuple(t_) for t_ in zip(*xs)), "unroll"
                     return Unknown("zip of a literal sequence with a computed one"), None
                 n0 = ns[0]
+                for n_ in ns[1:]:
+                    # zip stops at the shortest argument: decided when the lengths differ by a constant
+                    if n0 is None or n_ is None:
+                        return Unknown("zip of a sequence that is not understood"), None
+                    if eq(n0, n_):
+                        continue
+                    c_ = const_of(n_ - n0) if israt(n_) and israt(n0) else None
+                    if c_ is None:
+                        return Unknown("zip of sequences whose lengths are not comparable"), None
+                    if c_ < 0:
+                        n0 = n_
                 return PyTuple(xs), n0
             if f == "reversed":
                 return Unknown("reversed iteration"), None
@@ -2071,6 +2330,24 @@ class V:
                 body = [ast.copy_location(ast.For(target=tg, iter=it_, body=body, orelse=[], type_comment=None), st)]
             ast.fix_missing_locations(body[0])
             return self._loop(body[0])
+        if isinstance(st, ast.For) and isinstance(st.iter, (ast.GeneratorExp, ast.ListComp)) and not st.orelse and not any(g.ifs or g.is_async for g in st.iter.generators) \
+                and not any(isinstance(x, ast.Break) for x in ast.walk(st)):
+            # for T in (E for a in X for b in Y): body   ==   for a in X: for b in Y: T = E; body
+            import copy
+            comp = copy.deepcopy(st.iter)          # (the comprehension has a scope of its own: its variables get fresh names)
+            own = {x.id for g in comp.generators for x in ast.walk(g.target) if isinstance(x, ast.Name)}
+
+            class _Ren(ast.NodeTransformer):
+                def visit_Name(self, n_):
+                    return ast.copy_location(ast.Name(id="@g_" + n_.id, ctx=n_.ctx), n_) if n_.id in own else n_
+            first_iter = copy.deepcopy(comp.generators[0].iter)          # (evaluated in the enclosing scope)
+            comp = _Ren().visit(comp)
+            comp.generators[0].iter = first_iter
+            body = [ast.copy_location(ast.Assign(targets=[st.target], value=comp.elt, type_comment=None), st)] + list(st.body)
+            for g in reversed(comp.generators):
+                body = [ast.copy_location(ast.For(target=g.target, iter=g.iter, body=body, orelse=[], type_comment=None), st)]
+            ast.fix_missing_locations(body[0])
+            return self._loop(body[0])
         if isinstance(st, ast.For):
             sh.nloop += 1
             kname = f"@k{sh.nloop}"
@@ -2079,8 +2356,14 @@ class V:
             elem, n = self._elem(st.iter, k)
             if n == "unroll":
                 broke = False
-                for x in elem:
+                lit = st.iter.elts if isinstance(st.iter, (ast.Tuple, ast.List)) and len(st.iter.elts) == len(elem) else None
+                for i_, x in enumerate(elem):
                     self.assign(st.target, x, st)
+                    if lit is not None:
+                        # the element of a literal sequence names the arrays the targets stand for in this iteration
+                        al = self._alias_roots(ast.Assign(targets=[st.target], value=lit[i_]))
+                        for k_ in {y.id for y in ast.walk(st.target) if isinstance(y, ast.Name)}:
+                            self.view_of[k_] = al.get(k_, set())
                     self.skip = False
                     self.run(st.body)
                     self.skip = False
@@ -2206,6 +2489,7 @@ class Run:
         inline = {q: f for q, f in m.funcs.items() if "." not in q and "#" not in q and f is not fn and q not in exclude}
         self.sh = Shared(src=ctx.src, call=call, rewrite=rewrite, inline=inline, consts=module_consts(ctx, rel), modnames=module_names(ctx, rel),
                          oracle=oracle, ranks=ranks)
+        self.sh.namedtuples = module_namedtuples(ctx, rel)
         a = fn.args
         env = {}
         for x in a.posonlyargs + a.args + a.kwonlyargs:
@@ -2317,3 +2601,58 @@ def placed(name, args):
     out = dict(zip(SIGS.get(name, []), pos))
     out.update(kw)
     return out
+
+
+# ------------------------------------------------------------------------------------------------------------------------------ what the rules know
+
+# Library routines whose meaning the rules' expected values are written in (or that the engine gives a value to).  An application of anything else inside a value
+# that fails a comparison is an idiom the checker does not know - "np.pad(...)", a method of an object, a ufunc with where= - and the verdict is "not decided".
+KNOWN_CALLS = {
+    "np.mean", "np.sum", "np.cumsum", "np.cumprod", "np.prod", "np.all", "np.any", "np.max", "np.min", "np.amax", "np.amin", "np.argmax", "np.argmin", "np.diff",
+    "np.interp", "interp1d", "signal.lfilter", "signal.upfirdn", "signal.windows.kaiser", "np.sinc", "np.arange", "np.transpose", "np.swapaxes", "np.ravel", "np.searchsorted",
+    "np.nonzero", "np.flatnonzero", "np.log10", "np.log2", "np.sqrt", "np.round", "round", "np.linspace", "np.std", "np.var", "np.median", "np.nanmean", "np.average",
+    "np.expand_dims", "np.column_stack", "np.stack", "np.array_equal", "np.count_nonzero", "np.argsort", "np.sort", "np.repeat", "np.tile", "np.floor", "np.ceil",
+    "ceil", "floor", "trunc", "int", "float", "abs", "len", "max", "min", "sum", "math.ceil", "math.floor", "math.gcd", "np.gcd", "np.sign", "np.dot", "np.take", "np.squeeze", "np.flatten", "np.reshape", "np.where", "np.argwhere", "np.unique", "np.isnan", "np.isfinite",
+}
+
+
+MODULE_VALUES = {"np.inf", "np.nan", "np.newaxis", "np.pi", "np.e", "np.int64", "np.int32", "np.float64", "np.float32", "np.bool_", "np.complex128", "math.inf", "math.pi", "math.e", "math.nan",
+                 "numpy.inf", "numpy.nan", "numpy.newaxis", "numpy.pi"}
+
+
+def unrecognised(vals, defined=None):
+    """names of the applications inside the values that are not library routines the rules know (methods of unknown objects, unknown functions, ufunc keywords).
+    `defined`: the names that mean something in the module - a call of another bare name is an undefined name (a run-time error), which is not reported here"""
+    out = []
+
+    def pred(n, a):
+        if n.startswith("call:") and n[5:] not in KNOWN_CALLS:
+            if defined is None or "." in n[5:] or n[5:] in defined:
+                out.append(n[5:])
+        elif n in ("kw:where", "kw:out", "kw:initial"):
+            out.append(n)
+        return False
+    def syms(v, seen):
+        """module attributes used as values (np.r_, np.s_, np.ogrid ...): objects with a meaning of their own the checker does not model"""
+        for p_ in (v.n, v.d):
+            for a in p_.atoms():
+                if a in seen:
+                    continue
+                seen.add(a)
+                d = F.atom_desc(a)
+                if d[0] == "s":
+                    if d[1].split(".")[0] in ("np", "numpy", "signal", "scipy", "math", "itertools", "operator") and "." in d[1] and d[1] not in MODULE_VALUES:
+                        out.append(d[1])
+                elif d[0] == "fn":
+                    for k in d[2]:
+                        if not isinstance(k, str):
+                            syms(F.Rat(F._poly_from_key(k[1]), F._poly_from_key(k[2])), seen)
+                else:
+                    syms(F.Rat(F._poly_from_key(d[1])), seen)
+    for v in vals:
+        if isinstance(v, tuple):
+            out.extend(unrecognised(list(v), defined))
+        elif israt(v):
+            find_atoms(v, pred)
+            syms(v, set())
+    return sorted(set(out))
